@@ -97,18 +97,19 @@ def handle (cmd : String) (j : J) : Except String J :=
   | "combined" => do
     pure (gapsJ (GapMerge.sortGaps (GapMerge.combinedRefseqGaps (← gapsOfJ (← j.get "seq")) (← gapsOfJ (← j.get "union")))))
   | "inject" => do
-    let r := GapMerge.gapsForInjection (← gapsOfJ (← j.get "other")) (← gapsOfJ (← j.get "ref")) (← (← j.get "seqlen").toInt)
+    let r := GapMerge.gapsForInjection (← (← j.get "fixed").toBool) (← gapsOfJ (← j.get "other")) (← gapsOfJ (← j.get "ref")) (← (← j.get "seqlen").toInt)
     pure (exGapsJ (r.map GapMerge.sortGaps))
   | "p2m" => do
     -- pairwise_to_multiple on gap lists: ref length, [(refgaps, othergaps, otherlen)]
     let reflen ← (← j.get "reflen").toInt
     let pw ← (← j.get "pairs").toListOf fun t => do
       pure (← gapsOfJ (← t.get "ref"), ← gapsOfJ (← t.get "other"), ← (← t.get "len").toInt)
-    match GapMerge.pairwiseToMultiple reflen pw with
+    let fixed ← (← j.get "fixed").toBool
+    match GapMerge.pairwiseToMultiple fixed reflen pw with
     | .error e => pure (J.obj [("err", J.str e)])
     | .ok (rg, others) =>
       pure (J.obj [("ref", gapsJ (GapMerge.sortGaps rg)), ("others", J.arr (others.map fun g => gapsJ (GapMerge.sortGaps g))),
-                   ("keeps", J.bool (GapMerge.keepsAll reflen pw))])
+                   ("keeps", J.bool (GapMerge.keepsAll fixed reflen pw))])
   | _ => throw s!"unknown command {cmd}"
 
 def main : IO Unit := driverLoop handle
